@@ -33,6 +33,8 @@ from rpylib.model.levymodel.levymodel import LevyRepresentation
 PID = "C10"
 INF = math.inf
 shims.install_np(LM, EM, HEM, MER, BS, VG, CGMY)
+for _m in (LM, EM, HEM, MER, BS, VG, CGMY):  # float(x) on a real number is the identity, also on a symbolic one
+    shims.install(_m, float=shims.sym_float)
 
 
 class _Sp:
